@@ -108,14 +108,23 @@ func apBuild(cfg apCfg) (*apWorld, error) {
 	return a, err
 }
 
+// apStuck is set by the first case whose cache did not come to rest: the worker then stops enumerating (every later
+// case of a tree with that defect would sit out the same long patience and the worker would die on its test timeout
+// instead of reporting the violation it has found).
+var apStuck bool
+
 // rest brings the cache to rest and returns what is resident. ok=false: it did not come to rest within the (long) patience.
 func (a *apWorld) rest() (map[int]int, bool) {
 	a.st.Wait()
 	if a.isHybrid() {
 		// demoted entries stay in the map until the worker has copied them: wait until map and policy agree
 		deadline := time.Now().Add(120 * time.Second)
+		if apStuck {
+			deadline = time.Now().Add(2 * time.Second)
+		}
 		for a.st.Len() != a.st.EstimatedSize() {
 			if time.Now().After(deadline) {
+				apStuck = true
 				return nil, false
 			}
 			runtime.Gosched()
@@ -422,6 +431,10 @@ func TestVerif_APIPressure(t *testing.T) {
 				apiReap(base)
 				res.Executions++
 				res.Completed++
+				if apStuck {
+					res.Cap(fmt.Sprintf("case %d never came to rest (reported as a violation where the property covers it); enumeration stopped there", n))
+					stop = true
+				}
 				res.MaxDepth = depth
 				if res.Executions <= 2 {
 					res.Sample(map[string]any{"cfg": cfg.String(), "ops": fmt.Sprint(ops)})
